@@ -53,6 +53,10 @@ func ExtractInstanceTags(m []byte) (ours, theirs uint32, ok bool) {
 			return 0, 0, false
 		}
 
+		if _, version, _ := ExtractShort(msg); version != (otrV3{}).protocolVersion() {
+			return 0, 0, false
+		}
+
 		rest, senderInstanceTag, _ := ExtractWord(msg[messageHeaderPrefix:])
 		_, receiverInstanceTag, _ := ExtractWord(rest)
 
